@@ -156,6 +156,20 @@ Definition viol_nested (ty : rtype) (rid : bytes) (ls : list lst) (a : action) (
     then [] else [12]),
    must_panic ty a outer || st).
 
+(* what a Timeout / OK / ReaccessEvent / ResetEvent call has to put on the connection, at its
+   position in program order: every Timeout(d), d >= 0, of a request handler exactly one
+   pre-response timeout:"<ms of d>" on the reply subject - whatever was sent before (a pre-response
+   restarts the requester's timer, none is redundant) -, the first OK exactly one reply, a
+   negative Timeout and a second reply nothing (they panic); nothing in a With callback *)
+Definition plain_msgs (cx : ctx) (rid : bytes) (replied : bool) (a : action) : list effect :=
+  match a, cx with
+  | ATimeout us, CtxCall reply => if (us <? 0)%Z then [] else [EPublish reply (timeout_payload us)]
+  | AReply, CtxCall reply => if replied then [] else [EPublish reply ok_payload]
+  | AReaccess, _ => [EPublish (subject rid n_reaccess) []]
+  | AReset, _ => [EPublish reset_subject (reset_payload rid)]
+  | _, _ => []
+  end.
+
 (* actions after one that has to panic (invalid call, failed apply, negative
    timeout, second reply, panicking reaction) must not run: the handler is unwound *)
 Fixpoint viol_actions (cb : callback) (ci ai : N) (replied dead : bool) (s : list action)
@@ -172,6 +186,7 @@ Fixpoint viol_actions (cb : callback) (ci ai : N) (replied dead : bool) (s : lis
         cs ++ viol_actions cb ci (ai + 1) (snd x) stop s' log
       else
         (if forallb is_pub (map snd full) then [] else [3]) ++
+        (if list_eqb effect_eqb (map snd full) (plain_msgs (cb_ctx cb) (cb_rid cb) replied a) then [] else [14]) ++
         viol_actions cb ci (ai + 1) (snd x) (isSomeP (snd (fst x))) s' log
   end.
 Fixpoint viol_cbs (ci : N) (cbs : list callback) (log : list entry) : list N :=
@@ -216,6 +231,8 @@ Fixpoint dedup (l : list N) : list N :=
    11 an event record handed to a listener was changed after delivery (the retained *Event no
       longer shows what the listener saw, at the end of the callback or of the group)
    12 the effects of a re-entrant listener's event are not nested inside that listener's call
+   14 a Timeout / OK / ReaccessEvent / ResetEvent call did not put exactly its one message on the
+      connection at its position (e.g. a Timeout(d) pre-response missing, whatever d was before)
    13 a message of the current serve cycle was published on another connection object than the one
       the service is served on (so it does not appear on the connection; also shows as 9 / M1) *)
 Definition viol_case (c : gcase) : list N :=
